@@ -50,6 +50,9 @@ BUILD_STUBS = [
     {'name': 'n8', 'kind': 'part',
      'params': [['h', 'pk', None], ['uid', 'pk', None], ['x', 'pk', 'v']],
      'pre': {'pos_src': ['Hostile()']}},
+    # a mutable container as a parameter default
+    {'name': 'n12', 'kind': 'func',
+     'params': [['uid', 'pk', None], ['x', 'pk', 'l'], ['y', 'pk', 'v']]},
     # tag annotations on a positional-only parameter and on *args / **kwargs
     {'name': 'n10', 'kind': 'func',
      'params': [['uid', 'po', None], ['x', 'po', 'v', ['T1']],
@@ -258,6 +261,8 @@ def gen_case(world, tier, prop):
     case['unconfig_before_raise'] = erng.choice(['ok', 'fails'])
   if erng.random() < 0.2:
     case['swapped'] = True
+  if erng.random() < 0.2:
+    case['historyless'] = True
   return case
 
 
@@ -496,10 +501,17 @@ def run(case):
   def bump(d, k, n=1):
     d[k] = d.get(k, 0) + n
 
-  for d in case['defs']:
-    mk_m(d)
-    mk_i(d)
-  mroot, root = mk_m(case['root']), mk_i(case['root'])
+  import contextlib as _ctx
+  from fiddle._src import history as _hist
+  with (_hist.suspend_tracking() if case.get('historyless') else _ctx.nullcontext()):
+    # (historyless: made while tracking is suspended, like a configuration that
+    # was loaded from JSON: no history at all, not even for the callable)
+    for d in case['defs']:
+      mk_m(d)
+      mk_i(d)
+    mroot, root = mk_m(case['root']), mk_i(case['root'])
+  if case.get('historyless'):
+    bump(probes, 'configuration_without_history')
   if case.get('late') and any(isinstance(o, stubmod.LateBox) for o in _all_values(mroot)):
     # history: the type is met as an unregistered leaf by a first traversal,
     # and only then gets its traverser
